@@ -304,6 +304,7 @@ func (e *Engine) builtin(st *State, b *ssa.Builtin, args []Value, retTo *ssa.Cal
 			return nil
 		}
 		co.Closed = true
+		st.syncVer++ // receivers blocked on the channel can proceed
 		return nil
 	}
 	e.unsupported_(st, "builtin "+b.Name()+fmt.Sprintf(" on %T", args[0]))
